@@ -113,7 +113,7 @@ contract(SOL + "pre_irrigation.py", "pre_irrigation",
 contract(SOL + "groundwater_inflow.py", "groundwater_inflow",
          params=dict(prof=OBJ("SoilProfile"), NewCond=OBJ("InitialCondition")),
          ghost=GHOST_N,
-         requires=WF() + [WATER_INV("NewCond.th"),
+         requires=WF() + ["forall(j, 0, n, prof.zMid[j] == prof.dzsum[j] - prof.dz[j] / 2)", WATER_INV("NewCond.th"),
                           "length(prof.Comp) == n",
                           "implies(NewCond.wt_in_soil, prof.zMid[n-1] >= NewCond.z_gw)"],
          returns=[("Out", ("Param", "NewCond")), ("GwIn", "Real")],
@@ -121,7 +121,7 @@ contract(SOL + "groundwater_inflow.py", "groundwater_inflow",
              ("C01.gw_inflow_mass", "wsum(prof.dz, Out.th, n) == old(wsum(prof.dz, NewCond.th, n)) + GwIn"),
              ("C04.gw_inflow_sign", "GwIn >= 0"),
              ("C03.gw_inflow_bounds", WATER_INV("Out.th")),
-             ("C19.gw_inflow_saturates_below_table", "implies(NewCond.wt_in_soil, forall(j, 0, n, implies(prof.zMid[j] >= NewCond.z_gw and forall(i, 0, j, prof.zMid[i] <= prof.zMid[j]), Out.th[j] == prof.th_s[j])))"),
+             ("C19.gw_inflow_saturates_below_table", "implies(NewCond.wt_in_soil, forall(j, 0, n, implies(prof.zMid[j] >= NewCond.z_gw, Out.th[j] == prof.th_s[j])))"),
              ("C19.gw_inflow_zero_without_table", "implies(not NewCond.wt_in_soil, GwIn == 0 and forall(j, 0, n, Out.th[j] == old(NewCond.th[j])))"),
          ],
          loops={"L1": dict(invariant=[
